@@ -2,6 +2,7 @@ SPECIFICATION Spec
 CONSTANTS Family = "unfold"
           MaxEdits = 1
           UnivKinds = {"noisy"}
+          GtFirst = FALSE
           WithGt = TRUE
 INVARIANT UnfoldIsDenote
 INVARIANT ErrorOnlyWhenDenoted
